@@ -5,6 +5,7 @@ import common
 import progcheck
 from e2e import canon, concat_parts, exec_expr, try_, _short
 from c03 import strip_index
+import c04_labels
 
 
 def ops_table():
@@ -256,6 +257,9 @@ def run(run):
         "harness/steplog.py exporter; den of coq/Plan.v as model of pandas on the fragment; operators outside the fragment (merge, groupby, sort, shuffle, prefix/suffix ...) are covered by the scenario grid against pandas only",
     ]
     run.rule = ("scenario grid: operator x selected columns (scalar, lists of 1-3, reversed) x consumer (plain, reduction, second consumer of the intermediate) x partitions vs pandas; "
+                "labels grid: column-wise statistic (reductions, quantile with scalar / list q, describe, cov, ...) x table x partitions x operator below x selected labels "
+                "(every label, every ordered pair, triples, permutations, repeated) x consumer (plain, arithmetic, nested / second selection, next to the whole statistic) "
+                "vs the plan lowered without optimization, vs pandas' selection of the computed complete statistic, vs pandas; "
                 "T-STEP: every logged projection-pushdown step of the fragment validated by the verified rule_ok; widening: same program on sources with extra unused columns; "
                 "non-trivial = executed scenario / program with >= 2 steps")
     run.proofs("PropC04.v")
@@ -264,3 +268,4 @@ def run(run):
     source_sweep(run)
     progcheck.run_programs(run, {"C01"}, 200 if quick else 5000, profile="l1", own={"C01"})
     widening(run, 120 if quick else 3000)
+    c04_labels.label_sweep(run)
